@@ -19,7 +19,9 @@ def build(flavour="plain"):
         src = open(os.path.join(REPO, "sbeppc/src/sbepp/sbeppc/build_info.cpp.in")).read().replace("@sbepp_VERSION@", "verif")
         open(bi, "w").write(src)
         inc = ["-I" + os.path.join(REPO, "sbeppc/src"), "-I" + os.path.join(REPO, "sbepp/src")]
-        cxx = ["g++", "-std=c++17"] + opt + san
+        # _GLIBCXX_ASSERTIONS: library preconditions (dereferencing a disengaged optional, indexing past the end of a
+        # vector / string_view, front() of an empty container) abort instead of being silent undefined behaviour
+        cxx = ["g++", "-std=c++17", "-D_GLIBCXX_ASSERTIONS"] + opt + san
         stage1 = [
             # asserts stay enabled (no -DNDEBUG): the shipped release build compiles them out, C09 wants them on
             ("main.o", cxx + ["-Dmain=sbeppc_main"] + inc + ["-c", os.path.join(REPO, "sbeppc/src/sbepp/sbeppc/main.cpp"), "-o", "main.o"]),
